@@ -4,10 +4,11 @@
 //
 // Drives the REAL meta state machine (app/ts-meta/meta storeFSM.Apply over meta.Data) and
 // runs CheckCatalogue (monitor.go) after EVERY applied command. Two workloads:
-//   (i)  bounded-exhaustive: every sequence of up to L steps over a fixed alphabet of 16
-//        command templates, from two initial states, with prefix sharing (the catalogue and
-//        the monitor are forked per prefix by a reflection deep copy);
-//   (ii) random administrative sequences of length 300 from verifharness/metacmd.
+//
+//	(i)  bounded-exhaustive: every sequence of up to L steps over a fixed alphabet of 16
+//	     command templates, from two initial states, with prefix sharing (the catalogue and
+//	     the monitor are forked per prefix by a reflection deep copy);
+//	(ii) random administrative sequences of length 300 from verifharness/metacmd.
 package main
 
 import (
@@ -335,6 +336,10 @@ type exh struct {
 	reported map[string]bool
 	init     string
 	initCmds []Cmd
+	// fine units: at depth 1 descend only into template `only` (-1 = all); the depth-0 node
+	// is counted and reported only when countRoot is set
+	only      int
+	countRoot bool
 }
 
 func liveGroups(d *meta.Data) int {
@@ -354,6 +359,9 @@ func liveGroups(d *meta.Data) int {
 // visit applies template t in state (d, mon) and recurses.
 func (e *exh) walk(d *meta.Data, mon *Monitor, dump string, depth int, path []int, hist []Cmd) {
 	for ti, t := range alphabet {
+		if depth == 1 && e.only >= 0 && ti != e.only {
+			continue
+		}
 		cmds := t.fn(d)
 		if len(cmds) == 0 {
 			e.pruned++
@@ -376,12 +384,17 @@ func (e *exh) apply(d *meta.Data, mon *Monitor, dump string, depth int, path []i
 	for _, c := range cmds {
 		is, after, pan := st.step(c, cur)
 		h = append(h[:len(h):len(h)], c)
-		e.cmds++
+		if depth > 0 || e.countRoot {
+			e.cmds++
+		}
 		if pan != nil {
 			e.c.Inconclusive("apply-panic:"+c.Name, 1)
 			return
 		}
 		cur = after
+		if depth == 0 && !e.countRoot {
+			continue // this node is checked and counted by the sibling unit
+		}
 		for _, x := range is {
 			if !e.reported[x.Sig] {
 				e.reported[x.Sig] = true
@@ -396,8 +409,10 @@ func (e *exh) apply(d *meta.Data, mon *Monitor, dump string, depth int, path []i
 			}
 		}
 	}
-	e.failed += int64(st.errs)
-	e.seqs++
+	if depth > 0 || e.countRoot {
+		e.failed += int64(st.errs)
+		e.seqs++
+	}
 	nd = ms.VerifFSMData(e.f)
 	if n := liveGroups(nd); n > e.maxLive {
 		e.maxLive = n
@@ -407,8 +422,11 @@ func (e *exh) apply(d *meta.Data, mon *Monitor, dump string, depth int, path []i
 	}
 }
 
-func exhaustiveWorker(c *vf.Ctx, init string, first int, L int) {
-	e := &exh{c: c, L: L, f: ms.VerifNewFSM(exhOpts), reported: map[string]bool{}, init: init, initCmds: initials[init]}
+// exhaustiveWorker walks one unit of the enumeration tree: all sequences that start with
+// template `first` (second < 0), or with (first, second). The node [first] itself belongs to
+// the unit with second <= 0.
+func exhaustiveWorker(c *vf.Ctx, init string, first, second int, L int) {
+	e := &exh{c: c, L: L, f: ms.VerifNewFSM(exhOpts), reported: map[string]bool{}, init: init, initCmds: initials[init], only: -1, countRoot: true}
 	st := &stepper{f: e.f, mon: NewMonitor(), c: c}
 	st.mon.Check(ms.VerifFSMData(e.f), "")
 	for _, cm := range initials[init] {
@@ -422,9 +440,20 @@ func exhaustiveWorker(c *vf.Ctx, init string, first int, L int) {
 	c.LogInput(map[string]any{"part": "bounded-exhaustive", "initial": init, "first_template": alphabet[first].name, "L": L})
 	cmds := alphabet[first].fn(d)
 	unit := fmt.Sprintf("%s/%s", init, alphabet[first].name)
-	if len(cmds) == 0 {
-		e.pruned++
-	} else {
+	if second >= 0 {
+		unit += "/" + alphabet[second].name
+	}
+	switch {
+	case len(cmds) == 0:
+		if second <= 0 {
+			e.pruned++
+		}
+	case second < 0:
+		e.apply(d, st.mon, metacmd.DumpNoPos(d), 0, []int{first}, nil, cmds)
+	default:
+		// apply `first` without descending (its own node is counted by the unit second == 0)
+		e.only = second
+		e.countRoot = second == 0
 		e.apply(d, st.mon, metacmd.DumpNoPos(d), 0, []int{first}, nil, cmds)
 	}
 	c.Eval(int(e.seqs))
@@ -433,7 +462,9 @@ func exhaustiveWorker(c *vf.Ctx, init string, first int, L int) {
 	c.Count("exhaustive:branches-pruned-template-not-applicable", e.pruned)
 	c.Count("exhaustive:failed-commands-checked-unchanged", e.failed)
 	c.Distinct("exhaustive:unit-done", unit)
-	c.Extra("exhaustive-unit:"+unit, map[string]any{"sequences": e.seqs, "commands": e.cmds, "pruned": e.pruned, "failed_commands": e.failed, "max_live_groups": e.maxLive})
+	if second < 0 {
+		c.Extra("exhaustive-unit:"+unit, map[string]any{"sequences": e.seqs, "commands": e.cmds, "pruned": e.pruned, "failed_commands": e.failed, "max_live_groups": e.maxLive})
+	}
 	if e.maxLive >= 2 && e.failed > 0 {
 		c.Nontrivial("exh/" + unit)
 	}
@@ -533,10 +564,11 @@ func worker(c *vf.Ctx, arg string) {
 	parts := strings.Split(arg, ":")
 	switch parts[0] {
 	case "exh":
-		var first, L int
+		var first, second, L int
 		fmt.Sscan(parts[2], &first)
-		fmt.Sscan(parts[3], &L)
-		exhaustiveWorker(c, parts[1], first, L)
+		fmt.Sscan(parts[3], &second)
+		fmt.Sscan(parts[4], &L)
+		exhaustiveWorker(c, parts[1], first, second, L)
 	case "rand":
 		var k int
 		fmt.Sscan(parts[1], &k)
@@ -591,9 +623,18 @@ func main() {
 	c.Assume("random part: builders mirror the issuers' preconditions (metacmd Safe mode): index groups are expired only when no live shard group refers to them, shards are pruned only out of groups marked deleted, nodes are removed only after segregation, a database is created after its partition view; ReShardingCommand (range-sharding split, which creates [split+1,end) inside the last group by design) is not drawn")
 	c.Assume("alignment is judged against the ShardGroupDuration in force when the group first appeared; groups marked deleted carry no obligations; clamping at the minimum / maximum representable time and shard-merge (ReplaceMergeShards) spans that are multiples of the duration are allowed")
 	var args []string
+	units := 0
 	for _, in := range initialNames {
 		for t := range alphabet {
-			args = append(args, fmt.Sprintf("exh:%s:%d:%d", in, t, L))
+			if L <= 4 {
+				args = append(args, fmt.Sprintf("exh:%s:%d:-1:%d", in, t, L))
+				units++
+				continue
+			}
+			for t2 := range alphabet { // finer units for the deep walk: better balance over the cores
+				args = append(args, fmt.Sprintf("exh:%s:%d:%d:%d", in, t, t2, L))
+				units++
+			}
 		}
 	}
 	nRand := c.Pick(8, 16)
@@ -601,7 +642,7 @@ func main() {
 		args = append(args, fmt.Sprintf("rand:%d", k))
 	}
 	// longest first: random batches, then the units
-	sem := make(chan struct{}, 12)
+	sem := make(chan struct{}, 14)
 	var wg sync.WaitGroup
 	for i := len(args) - 1; i >= 0; i-- {
 		a := args[i]
@@ -615,7 +656,6 @@ func main() {
 	}
 	wg.Wait()
 	metacmd.ScanRaceLogs(c)
-	units := len(initialNames) * len(alphabet)
 	done := c.DistinctCount("exhaustive:unit-done")
 	c.Extra("bounded-exhaustive", map[string]any{
 		"exhaustive": done == units, "L": L, "alphabet": alphabetNames(), "initial_states": initialNames,
@@ -628,4 +668,3 @@ func main() {
 	}
 	c.Finish()
 }
-
